@@ -28,6 +28,7 @@ var (
 	repo  = flag.String("repo", "/repo", "servitor working tree")
 	verif = flag.String("verif", "/verif", "verification tree")
 	out   = flag.String("out", "", "scratch directory for generated files")
+	check = flag.String("check", "", "check id (cNN): accessor files named only-cXX-cYY--*.go are added only for the checks they name")
 )
 
 type report struct {
@@ -103,6 +104,21 @@ func main() {
 		pkg := filepath.Base(d)
 		files, _ := filepath.Glob(filepath.Join(d, "*.go"))
 		for _, f := range files {
+			if base := filepath.Base(f); strings.HasPrefix(base, "only-") {
+				// accessors that depend on implementation details (e.g. the concrete cache type)
+				// are bound only into the checks that need them, so that a change to those
+				// details cannot stop unrelated checks from building
+				ids := strings.Split(strings.TrimPrefix(strings.SplitN(base, "--", 2)[0], "only-"), "-")
+				wanted := false
+				for _, id := range ids {
+					if id == *check {
+						wanted = true
+					}
+				}
+				if !wanted {
+					continue
+				}
+			}
 			dst := filepath.Join(*repo, pkg, "zz_verif_"+filepath.Base(f))
 			if pkg == "main" {
 				dst = filepath.Join(*repo, "zz_verif_"+filepath.Base(f))
